@@ -474,8 +474,9 @@ def extract_loopfn(repo, ent):
                 + text[m.end():se] + '\n}' + text[se:])
     for r in ([] if ent.get('_text') is not None else ent.get('pre_rewrites', [])):
         text, n = re.subn(r['pattern'], r['repl'], text, flags=re.M)
-        if n != r['count']:
-            raise ExtractError('pre-rewrite %s fired %d times, must fire exactly %d' % (r['id'], n, r['count']))
+        lo, hi = (r['count'], r['count']) if not isinstance(r['count'], list) else r['count']
+        if not lo <= n <= hi:
+            raise ExtractError('pre-rewrite %s fired %d times, must fire %s times' % (r['id'], n, r['count']))
     ob = _find_open_brace(text, text.index(re.search(ent['start'], text, flags=re.M).group(0)) if not (ent.get('header') and ent.get('_text') is None) else 0)
     header = text[:ob]
     inner = text[ob + 1:text.rindex('}')]
